@@ -41,6 +41,8 @@ type vCase struct {
 	KeyLast bool  `json:"keylast,omitempty"`
 	First   []int `json:"first"`
 	Depth   int   `json:"depth"`
+	// Alpha, when set, restricts the events after First to these indices of vOps
+	Alpha []int `json:"alpha,omitempty"`
 }
 
 func init() {
@@ -136,9 +138,19 @@ func vWorker(raw json.RawMessage) *engine.Result {
 	must(json.Unmarshal(raw, &c))
 	res := &engine.Result{}
 	var sample interface{}
+	nAlpha := len(vOps)
+	if len(c.Alpha) > 0 {
+		nAlpha = len(c.Alpha)
+	}
 	for total := len(c.First); total <= c.Depth; total++ {
-		seqs(len(vOps), total-len(c.First), func(tailOps []int) {
-			ops := append(append([]int{}, c.First...), tailOps...)
+		seqs(nAlpha, total-len(c.First), func(tailOps []int) {
+			ops := append([]int{}, c.First...)
+			for _, t := range tailOps {
+				if len(c.Alpha) > 0 {
+					t = c.Alpha[t]
+				}
+				ops = append(ops, t)
+			}
 			s := vRunSeq(res, c, ops)
 			if s != nil && sample == nil {
 				sample = s
@@ -250,6 +262,13 @@ func vRunSeq(res *engine.Result, c vCase, ops []int) interface{} {
 		must(cl["w2"].Refresh())
 		must(ro.Refresh())
 	}
+	if c.Mode == "c07" {
+		// a committed row with a smaller key (for epn 4096; the filler rows above have larger keys): the tested
+		// keys 1 and 2 then land between / after existing keys, also on their first INSERT
+		must(cl["w1"].Exec("insert into {T}(a,b,c) values(0,'p',0)"))
+		must(cl["w2"].Refresh())
+		must(ro.Refresh())
+	}
 	var recs []vRec
 	byVer := map[string]engine.Rows{}
 	record := func(step int) bool {
@@ -293,18 +312,46 @@ func vRunSeq(res *engine.Result, c vCase, ops []int) interface{} {
 			rowsBefore, _ = x.Query(selAll)
 		}
 		effect := true
+		// C07 mode: the outcome of a statement agrees with the rows this very connection shows (an INSERT of a
+		// key it can see is a constraint failure, of one it cannot see succeeds; UPDATE / DELETE hit one row
+		// exactly when the key is visible), whoever wrote the row and however it came into view
+		sees := func(k string) bool {
+			for _, r := range rowsBefore {
+				if strings.HasPrefix(r, "i"+k+"|") {
+					return true
+				}
+			}
+			return false
+		}
+		outcome := func(kind, k string, n int64, err error) {
+			if c.Mode != "c07" {
+				return
+			}
+			vis := sees(k)
+			switch {
+			case kind == "insert" && vis && engine.ErrClass(err) != "pk":
+				viol("insert-of-visible-key-not-refused", "%s: key %s is visible on %s (%v), the INSERT gave n=%d err=%v", op, k, who, rowsBefore, n, err)
+			case kind == "insert" && !vis && (err != nil || n != 1):
+				viol("insert-of-absent-key-failed", "%s: key %s is not visible on %s (%v), the INSERT gave n=%d err=%v", op, k, who, rowsBefore, n, err)
+			case kind != "insert" && (err != nil || (n == 1) != vis):
+				viol(kind+"-outcome-disagrees-with-visible-rows", "%s: key %s visible on %s: %v (%v), the statement gave n=%d err=%v", op, k, who, vis, rowsBefore, n, err)
+			}
+		}
 		switch strings.SplitN(op, ":", 2)[len(strings.SplitN(op, ":", 2))-1] {
 		case "insert 1", "insert 2":
 			k := op[len(op)-1:]
 			n, err := x.Affected(fmt.Sprintf("insert into {T}(a,b,c) values(%s,'i%d',%d)", k, step, step))
+			outcome("insert", k, n, err)
 			effect = err == nil && n == 1
 		case "update 1", "update 2":
 			k := op[len(op)-1:]
 			n, err := x.Affected(fmt.Sprintf("update {T} set b='u%d' where a=%s", step, k))
+			outcome("update", k, n, err)
 			effect = err == nil && n == 1
 		case "delete 1", "delete 2":
 			k := op[len(op)-1:]
 			n, err := x.Affected(fmt.Sprintf("delete from {T} where a=%s", k))
+			outcome("delete", k, n, err)
 			effect = err == nil && n == 1
 		case "tx-insert2-update1":
 			must(x.Exec("begin"))
@@ -401,6 +448,10 @@ func vRunSeq(res *engine.Result, c vCase, ops []int) interface{} {
 		}
 		defer w1.Exec("drop table " + name)
 		return w1.Query("select a,b,c from " + name + " order by a")
+	}
+	if c.Mode == "c07" {
+		res.Execs++
+		return map[string]interface{}{"kind": "statement outcomes vs visible rows", "ops": names}
 	}
 	if c.Mode == "c11" {
 		for _, rec := range recs {
